@@ -6,7 +6,7 @@
                               _create_single_tile, _create_meta_tile
      mapproxy/seed/config.py  before_timestamp_from_options
      mapproxy/util/times.py   timestamp_before, timestamp_from_isodate (result only)
-     mapproxy/seed/seeder.py  the `handle_uncached` / `handle_stale` filter of TileWalker._walk
+     mapproxy/seed/seeder.py  the `handle_uncached` / `handle_stale` selection of TileWalker._walk (_tiles_of)
    over a cache that maps a tile address to (content, timestamp).
 
    Time.  All instants are integers in *ticks*; `Q` ticks make one second (Q is a parameter of every
@@ -219,7 +219,9 @@ Fixpoint uncached (m : mgr) (ev : env) (c : cache) (l : list addr) : option (lis
 Definition mt_eqb (x y : list addr) : bool := list_eqb addr_eqb x y.
 Fixpoint mem_mt (x : list addr) (l : list (list addr)) : bool :=
   match l with [] => false | y :: r => mt_eqb x y || mem_mt x r end.
-(* create_tiles: the distinct meta tiles of the uncached tiles, in order of first occurrence *)
+(* create_tiles: the distinct meta tiles of the uncached tiles, in order of first occurrence.  The code tells
+   meta tiles apart by their main tile; two tiles have the same main tile iff they have the same list of meta
+   tile members, which is what is compared here. *)
 Fixpoint dedupe (seen : list (list addr)) (l : list (list addr)) : list (list addr) :=
   match l with
   | [] => []
@@ -254,29 +256,44 @@ Definition load_tile_coords (m : mgr) (ev : env) (sc : nat -> outcome) (members 
       end
   end.
 
-(* seed/seeder.py TileWalker._walk: is the (meta) tile `t` handed to the workers?  With meta tiles `t` is the
-   main tile of the meta tile and only that tile is examined. *)
-Definition seed_handles (m : mgr) (ev : env) (c : cache) (handle_all skip_uncached : bool) (t : addr) : option bool :=
-  if handle_all then Some true
-  else if skip_uncached then tm_is_stale m ev c t
-  else match tm_is_cached m ev c t with Some b => Some (negb b) | None => None end.
+(* seed/seeder.py TileWalker._walk with refresh_before given (handle_all = False): which of the tiles `l` that are
+   created together with the examined (meta) tile are handed to the workers.
+     handle_uncached:           [st for st in _tiles_of(t) if not tile_mgr.is_cached(st)]   (= uncached)
+     handle_stale (--skip-uncached): [st for st in _tiles_of(t) if tile_mgr.is_stale(st)]
+   None = SeedConfigurationError out of the walker. *)
+Fixpoint stale_members (m : mgr) (ev : env) (c : cache) (l : list addr) : option (list addr) :=
+  match l with
+  | [] => Some []
+  | a :: r =>
+      match tm_is_stale m ev c a with
+      | None => None
+      | Some b =>
+          match stale_members m ev c r with
+          | None => None
+          | Some u => Some (if b then a :: u else u)
+          end
+      end
+  end.
 
-(* seed/seeder.py seed_task + TileWalker over one level, refresh_before given (handle_all = False): the (meta)
-   tiles `mains` are examined in walk order; a tile handed over is loaded by a worker
-   (TileSeedWorker: tile_mgr.load_tile_coords(tiles), the result is dropped; an upstream error is retried later
-   and does not stop the walk).  Returns the state, the tiles handed over and whether the walk completed
-   (False: SeedConfigurationError out of the walker). *)
+Definition seed_select (m : mgr) (ev : env) (c : cache) (skip_uncached : bool) (l : list addr) : option (list addr) :=
+  if skip_uncached then stale_members m ev c l else uncached m ev c l.
+
+(* seed/seeder.py seed_task + TileWalker over one level, refresh_before given: the (meta) tiles `mains` are
+   examined in walk order, `members t` = _tiles_of(t) = the tiles of the meta tile of t; a non-empty selection is
+   handed over and loaded by a worker (TileSeedWorker: tile_mgr.load_tile_coords(tiles), the result is dropped; an
+   upstream error is retried later and does not stop the walk).  Returns the state, the lists handed over and
+   whether the walk completed (False: SeedConfigurationError out of the walker). *)
 Fixpoint seed_walk (m : mgr) (ev : env) (sc : nat -> outcome) (members : addr -> list addr)
-         (s : st) (skip_uncached : bool) (mains : list addr) : st * list addr * bool :=
+         (s : st) (skip_uncached : bool) (mains : list addr) : st * list (list addr) * bool :=
   match mains with
   | [] => (s, [], true)
   | t :: r =>
-      match seed_handles m ev (s_cache s) false skip_uncached t with
+      match seed_select m ev (s_cache s) skip_uncached (members t) with
       | None => (s, [], false)
-      | Some false => seed_walk m ev sc members s skip_uncached r
-      | Some true =>
-          let '(s2, h, ok) := seed_walk m ev sc members (fst (load_tile_coords m ev sc members s [t])) skip_uncached r in
-          (s2, t :: h, ok)
+      | Some [] => seed_walk m ev sc members s skip_uncached r
+      | Some h =>
+          let '(s2, hs, ok) := seed_walk m ev sc members (fst (load_tile_coords m ev sc members s h)) skip_uncached r in
+          (s2, h :: hs, ok)
       end
   end.
 
@@ -293,7 +310,7 @@ Inductive event :=
 Inductive obs :=
   | OReq (r : result)
   | OProbe (cached stale : option bool)
-  | OSeed (handed : list addr) (completed : bool)
+  | OSeed (handed : list (list addr)) (completed : bool)
   | OSilent.
 
 Record world := mkWorld { w_mgr : mgr; w_env : env; w_st : st }.
@@ -347,7 +364,7 @@ Definition obs_eqb (a b : obs) : bool :=
   match a, b with
   | OReq x, OReq y => result_eqb x y
   | OProbe c1 s1, OProbe c2 s2 => optb_eqb c1 c2 && optb_eqb s1 s2
-  | OSeed h1 c1, OSeed h2 c2 => list_eqb addr_eqb h1 h2 && Bool.eqb c1 c2
+  | OSeed h1 c1, OSeed h2 c2 => list_eqb (list_eqb addr_eqb) h1 h2 && Bool.eqb c1 c2
   | OSilent, OSilent => true
   | _, _ => false
   end.
